@@ -1,5 +1,681 @@
 package main
 
-import "verif/mon"
+import (
+	"bytes"
+	"encoding/binary"
+	"encoding/hex"
+	"fmt"
+	"sync"
+	"time"
 
-func checkC09(r *mon.Run) {}
+	"github.com/gopacket/gopacket"
+
+	"github.com/scionproto/scion/pkg/addr"
+	"github.com/scionproto/scion/pkg/drkey"
+	"github.com/scionproto/scion/pkg/slayers"
+	"github.com/scionproto/scion/pkg/spao"
+	"github.com/scionproto/scion/private/topology"
+	"github.com/scionproto/scion/router"
+
+	"verif/mon"
+	"verif/rfix"
+)
+
+// Causes the C09 generator injects, one per case, into an otherwise valid packet.
+const (
+	cBadMAC = iota
+	cExpired
+	cUnknownIngress
+	cUnknownEgress
+	cSrcIA
+	cDstIA
+	cInvalidPath
+	cSegChange
+	cBadSize
+	cDstHost
+	cSrcHost
+	cNoSVC
+	cIfDown // only on routers whose links have (never started, hence down) BFD sessions
+	numCauses
+)
+
+var causeNames = [...]string{"bad-mac", "expired", "unknown-ingress", "unknown-egress", "src-ia", "dst-ia",
+	"invalid-path", "seg-change", "bad-size", "dst-host", "src-host", "no-svc", "if-down"}
+
+// expectation is what doc/protocols/scmp.rst prescribes for the injected cause.
+type expectation struct {
+	typ, code uint8
+	ptr       int // -1: the pointer is not judged (the documentation does not fix it for this cause)
+	// type 5/6 info block
+	ifInfo          bool
+	ingress, egress uint64
+}
+
+type c09Witness struct {
+	fuzzWitness
+	Cause    string `json:"cause"`
+	Scenario string `json:"scenario"`
+	Expect   string `json:"expected"`
+}
+
+// allowed interface-type pairs (ingress, egress) inside a segment and at a
+// segment change, from the statement of the link-type property; used only to
+// pick a forbidden pair for injection.
+func pairAllowed(in, eg topology.LinkType, xover bool) bool {
+	if xover {
+		return (in == topology.Core && eg == topology.Child) || (in == topology.Child && eg == topology.Core) ||
+			(in == topology.Child && eg == topology.Child)
+	}
+	return (in == topology.Core && eg == topology.Core) || (in == topology.Child && eg == topology.Parent) ||
+		(in == topology.Parent && eg == topology.Child) || (in == topology.Child && eg == topology.Peer) ||
+		(in == topology.Peer && eg == topology.Child)
+}
+
+var allLinkTypes = []topology.LinkType{topology.Core, topology.Parent, topology.Child, topology.Peer}
+
+// c09One generates, runs and judges one case. It returns false if the drawn
+// combination was not applicable (the caller draws again).
+func (f *fz) c09One(idx int) bool {
+	rng := f.rng
+	si := f.star()
+	s, v := f.stars[si], f.variants[si]
+	now := time.Now()
+	cause := rng.IntN(int(cIfDown))
+	if v.BFD {
+		cause = cIfDown
+	}
+	// shape compatible with the cause
+	var shape rfix.Shape
+	switch cause {
+	case cInvalidPath:
+		shape = rfix.ShTransit
+	case cSegChange:
+		shape = rfix.ShXover
+	case cDstHost, cNoSVC:
+		shape = rfix.ShDst
+	case cSrcHost:
+		shape = rfix.ShSrc
+	case cUnknownIngress:
+		shape = pick(rng, rfix.ShDst, rfix.ShTransit, rfix.ShXover, rfix.ShPeerUp, rfix.ShPeerDown)
+	case cUnknownEgress, cIfDown:
+		shape = pick(rng, rfix.ShSrc, rfix.ShTransit, rfix.ShXover, rfix.ShPeerUp, rfix.ShPeerDown)
+	default:
+		shape = rfix.Shape(rng.IntN(int(rfix.NumShapes)))
+	}
+	sc := s.GenScenario(rng, shape, now.Unix())
+	in := sc.In
+	external := sc.Arr == rfix.ArrExternal && in.IfID != 0
+	switch cause {
+	case cInvalidPath, cSegChange, cUnknownIngress:
+		if !external {
+			return false
+		}
+	}
+	// lengthen the path: total hop counts around the point where the reply
+	// header no longer fits the 512-byte headroom, and up to the maximum of 64
+	hops := sc.Spec.NumHops()
+	target := hops
+	switch rng.IntN(6) {
+	case 0:
+		target = 16 + rng.IntN(10)
+	case 1:
+		target = 32 + rng.IntN(10) // boundary region: 12+addr+4+8n+12h+8(+32) vs 512
+	case 2:
+		target = 44 + rng.IntN(16)
+	case 3:
+		target = 64 - rng.IntN(3)
+	}
+	if target > hops {
+		extra := make([]int, len(sc.Spec.Segs))
+		for left := target - hops; left > 0; left-- {
+			i := rng.IntN(len(extra))
+			if len(sc.Spec.Segs[i].Seg.Hops)+extra[i] < 63 {
+				extra[i]++
+			}
+		}
+		sc.FuzzPadSegments(rng, extra)
+	}
+	ex := expectation{ptr: -1}
+	cur := sc.Spec.Cur
+	lastLocal := sc.LocalHops[len(sc.LocalHops)-1]
+	tgtHop := -1  // hop the pointer must designate
+	tgtInfo := -1 // or info field
+	var rawPatch func(b []byte, h *rfix.Hdr) []byte
+	curConsDir := sc.FuzzConsDirOf(cur)
+	opts := pktOpts{L4: rng.IntN(l4BFD), Ext: rng.IntN(4), Epic: rng.IntN(16) == 0}
+	// ---- inject the cause ----
+	switch cause {
+	case cBadMAC:
+		t := sc.LocalHops[rng.IntN(len(sc.LocalHops))]
+		bit := rng.IntN(48)
+		rawPatch = func(b []byte, h *rfix.Hdr) []byte { b[h.HopOff[t]+6+bit/8] ^= 1 << (bit % 8); return b }
+		ex.typ, ex.code, tgtHop = 4, 51, t
+	case cExpired:
+		t := sc.LocalHops[rng.IntN(len(sc.LocalHops))]
+		segIdx, _ := sc.Spec.Locate(t)
+		seg := sc.Spec.Segs[segIdx].Seg
+		hop := sc.Spec.HopAt(t)
+		off := pick(rng, -2*time.Second, -5*time.Second, -time.Minute, -time.Hour, -24*time.Hour)
+		hop.Exp = uint8(rng.IntN(256))
+		life := time.Duration(rfix.ExpDurationNs(hop.Exp))
+		seg.Ts = uint32(now.Add(off).Add(-life).Unix())
+		for i := range seg.Hops {
+			if &seg.Hops[i] != hop {
+				seg.Hops[i].Exp = 255
+			}
+		}
+		// (the other hops of this segment belong to other ASes: the two hops this AS
+		// validates at a cross-over lie in different segments)
+		seg.Seal(rng)
+		ex.typ, ex.code, tgtHop = 4, 52, t
+	case cUnknownIngress:
+		other, ok := s.FuzzPickIf(rng, -1, 1, in.IfID)
+		if !ok {
+			return false
+		}
+		in = rfix.Ingress{IfID: other.ID}
+		ex.typ, tgtHop = 4, cur
+		ex.code = 50
+		if curConsDir {
+			ex.code = 49
+		}
+	case cUnknownEgress:
+		var eg uint16
+		if !external && rng.IntN(2) == 0 {
+			// from inside the AS towards an interface of a sibling router
+			fi, ok := s.FuzzPickIf(rng, -1, 0, 0)
+			if !ok {
+				return false
+			}
+			eg = fi.ID
+		} else {
+			for {
+				eg = uint16(1 + rng.IntN(65535))
+				if _, used := s.FuzzIf(eg); !used {
+					break
+				}
+			}
+		}
+		sc.FuzzSetEgress(rng, lastLocal, eg)
+		ex.typ, tgtHop = 4, lastLocal
+		ex.code = 49
+		if sc.FuzzConsDirOf(lastLocal) {
+			ex.code = 50
+		}
+	case cSrcIA, cDstIA:
+		// applied on the rawSpec below
+	case cInvalidPath, cSegChange:
+		inIf, _ := s.FuzzIf(sc.InIf)
+		var cands []topology.LinkType
+		for _, lt := range allLinkTypes {
+			if !pairAllowed(inIf.LinkTo, lt, cause == cSegChange) {
+				cands = append(cands, lt)
+			}
+		}
+		eg, ok := s.FuzzPickIf(rng, int(cands[rng.IntN(len(cands))]), -1, sc.InIf)
+		if !ok {
+			return false
+		}
+		sc.FuzzSetEgress(rng, lastLocal, eg.ID)
+		if cause == cInvalidPath {
+			ex.typ, ex.code, tgtHop = 4, 48, lastLocal
+		} else {
+			ex.typ, ex.code = 4, 53
+			tgtInfo, _ = sc.Spec.Locate(lastLocal)
+		}
+	case cBadSize:
+		ex.typ, ex.code = 4, 19
+		k := rng.IntN(3)
+		rawPatch = func(b []byte, h *rfix.Hdr) []byte {
+			pl := binary.BigEndian.Uint16(b[6:])
+			switch k {
+			case 0:
+				binary.BigEndian.PutUint16(b[6:], pl+uint16(1+rng.IntN(300)))
+			case 1:
+				d := uint16(1 + rng.IntN(300))
+				if d > pl {
+					d = pl
+				}
+				if d == 0 {
+					b = append(b, 0)
+				} else {
+					binary.BigEndian.PutUint16(b[6:], pl-d)
+				}
+			default:
+				b = append(b, randBytes(rng, 1+rng.IntN(64))...)
+			}
+			return b
+		}
+	case cDstHost:
+		ex.typ, ex.code = 4, 34
+	case cSrcHost:
+		ex.typ, ex.code = 4, 33
+	case cNoSVC:
+		sc.DstHost = addr.HostSVC(pick(rng, addr.SvcDS, addr.SvcWildcard, addr.SvcDS|addr.SVCMcast, addr.SVC(0x0003), addr.SVC(0x7fff)))
+		ex.typ, ex.code = 1, 0
+	case cIfDown:
+		l := s.Link(sc.EgIf)
+		if l == nil {
+			return false
+		}
+		if l.IsUp() {
+			cause = -1 // valid packet on a router with BFD: must simply be forwarded
+		} else if l.Scope() == router.External {
+			ex = expectation{typ: 5, ptr: -1, ifInfo: true, egress: uint64(sc.EgIf)}
+		} else {
+			ig := uint64(0)
+			if external {
+				ig = uint64(in.IfID)
+			}
+			ex = expectation{typ: 6, ptr: -1, ifInfo: true, ingress: ig, egress: uint64(sc.EgIf)}
+		}
+	}
+	// ---- size, layer 4, source host form ----
+	sizeClass := rng.IntN(7)
+	switch sizeClass {
+	case 0:
+		opts.Size = rng.IntN(16)
+	case 1:
+		opts.Size = 16 + rng.IntN(300)
+	case 2:
+		opts.Size = 300 + rng.IntN(600)
+	case 3:
+		opts.Size = 1000 + rng.IntN(400) // around the 1232 bound
+	case 4:
+		opts.Size = 1400 + rng.IntN(3000)
+	case 5:
+		opts.Size = 4400 + rng.IntN(4000)
+	case 6:
+		opts.Size = maxInput // trimmed below to fill the buffer exactly
+	}
+	rs := scnSpec(rng, sc, opts)
+	srcForm := "ip4"
+	if len(rs.SrcHost) == 16 {
+		srcForm = "ip6"
+	}
+	switch cause {
+	case cSrcIA:
+		if sc.Shape == rfix.ShSrc {
+			rs.SrcIA = uint64(rfix.OtherIA)
+		} else {
+			rs.SrcIA = uint64(s.Cfg.IA)
+		}
+		ex.typ, ex.code, ex.ptr = 4, 33, 20
+	case cDstIA:
+		if sc.Shape == rfix.ShDst {
+			rs.DstIA = uint64(rfix.OtherIA)
+		} else {
+			rs.DstIA = uint64(s.Cfg.IA)
+		}
+		ex.typ, ex.code, ex.ptr = 4, 34, 12
+	case cDstHost:
+		switch rng.IntN(5) {
+		case 0:
+			rs.DstHost, rs.DT = append(make([]byte, 10), 0xff, 0xff, 10, 1, 2, 3), 0b0011 // v4-mapped
+		case 1:
+			rs.DstHost, rs.DT = make([]byte, 4), 0b0000 // 0.0.0.0
+		case 2:
+			rs.DstHost, rs.DT = make([]byte, 16), 0b0011 // ::
+		case 3:
+			rs.DstHost, rs.DT = randBytes(rng, 8), pick[uint8](rng, 0b0001, 0b0101, 0b1001) // 8-byte types
+		case 4:
+			rs.DstHost, rs.DT = randBytes(rng, 4), pick[uint8](rng, 0b1000, 0b1100) // unknown 4-byte types
+		}
+	case cSrcHost:
+		switch rng.IntN(3) {
+		case 0:
+			rs.SrcHost, rs.ST = append(make([]byte, 10), 0xff, 0xff, 10, 1, 2, 3), 0b0011
+			srcForm = "ip4in6"
+		case 1:
+			rs.SrcHost, rs.ST = randBytes(rng, 12), pick[uint8](rng, 0b0010, 0b0110)
+			srcForm = "unknown12"
+		case 2:
+			rs.SrcHost, rs.ST = randBytes(rng, 4), pick[uint8](rng, 0b1000, 0b1100)
+			srcForm = "unknown4"
+		}
+	}
+	// offenders outside the AS may carry any source host form
+	if rs.SrcIA != uint64(s.Cfg.IA) && cause != cSrcHost {
+		switch rng.IntN(8) {
+		case 0:
+			rs.SrcHost, rs.ST = []byte{0, byte(1 + rng.IntN(2)), 0, 0}, 0b0100
+			srcForm = "svc"
+		case 1:
+			rs.SrcHost, rs.ST = randBytes(rng, 8), pick[uint8](rng, 0b0001, 0b0101)
+			srcForm = "unknown8"
+		case 2:
+			rs.SrcHost, rs.ST = randBytes(rng, 4), 0b1000
+			srcForm = "unknown4"
+		}
+	}
+	// keep the whole packet inside the receive buffer
+	if over := rs.hdrLen() + len(rs.HBH) + len(rs.E2E) + len(rs.L4Bytes) - maxInput; over > 0 {
+		if over >= len(rs.L4Bytes)-24 {
+			return false
+		}
+		rs.L4Bytes = rs.L4Bytes[:len(rs.L4Bytes)-over]
+	}
+	raw := rs.Build()
+	h, err := rfix.ParseHdr(raw)
+	if err != nil {
+		reportViolation(f.r, "C09:fixture-parse", "reference parser rejects a generated packet: "+err.Error(), hex.EncodeToString(raw))
+		return true
+	}
+	if tgtHop >= 0 {
+		ex.ptr = h.HopOff[tgtHop]
+	}
+	if tgtInfo >= 0 {
+		ex.ptr = h.InfoOff[tgtInfo]
+	}
+	if rawPatch != nil {
+		raw = rawPatch(raw, h)
+		if len(raw) > maxInput {
+			raw = raw[:maxInput]
+		}
+	}
+	// ---- run ----
+	f.li.put(f.id, v.Idx, "c09", raw, in)
+	t0 := time.Now()
+	res := s.Process(raw, in)
+	t1 := time.Now()
+	f.a.eval()
+	cname := "valid"
+	if cause >= 0 {
+		cname = causeNames[cause]
+	}
+	wit := func() c09Witness {
+		return c09Witness{fuzzWitness: mkWitness(s, v, "c09", raw, in, &res), Cause: cname,
+			Scenario: fmt.Sprintf("%s kinds=%v consdir=%v in=%d eg=%d hops=%d cur=%d local=%v epic=%v src=%s", sc.Shape, sc.Kinds, sc.ConsDirs, sc.InIf, sc.EgIf, h.NumHF, cur, sc.LocalHops, opts.Epic, srcForm),
+			Expect:   fmt.Sprintf("type %d code %d pointer %d", ex.typ, ex.code, ex.ptr)}
+	}
+	if res.Panic != "" {
+		// a crash is C08's subject; here it only means that no SCMP message could be judged
+		f.r.Inconclusive("router-panic(judged-by-C08)")
+		f.a.event("panic_not_judged_here")
+		return true
+	}
+	outcome := outcomeOf(&res)
+	authS := "noauth"
+	if v.Auth {
+		authS = "auth"
+	}
+	kind := ingressKind(s, in)
+	offErr, offSCMP, offKnown := isSCMPError(raw)
+	l4class := "l4-other"
+	switch {
+	case offKnown && offErr:
+		l4class = "l4-scmp-error"
+	case offKnown && offSCMP:
+		l4class = "l4-scmp-info"
+	}
+	place := "none"
+	emittedErr := res.ViaSlow && res.SlowKind >= 0 && res.Out != nil
+	if emittedErr {
+		place = "headroom"
+		if res.BufOffset > router.VerifMinHeadroom {
+			place = "packed-at-end"
+		}
+		f.a.class("placement:" + place + "/" + authS)
+		f.a.event("placement_" + place)
+	}
+	f.a.class(fmt.Sprintf("%s/%s/%s/%s/ext%d/%s/src-%s/%s", cname, kind, authS, l4class, opts.Ext, place, srcForm, outcome))
+	f.a.class(fmt.Sprintf("cause:%s/%s", cname, outcome))
+	f.a.class(fmt.Sprintf("offender-l4:%s/%s", l4Names[opts.L4], map[bool]string{true: "answered", false: "silent"}[emittedErr]))
+	f.a.class(fmt.Sprintf("size%d/hops%d/%s", sizeClass, h.NumHF/8, place))
+	if !emittedErr {
+		if offKnown && offErr && res.ViaSlow && res.SlowKind >= 0 {
+			f.a.event("scmp_error_offender_not_answered")
+		}
+		if cause < 0 && res.Forwarded() {
+			f.a.event("valid_forwarded")
+		}
+		return true
+	}
+	f.a.event("scmp_error_emitted")
+	f.a.event("emitted:" + cname)
+	if f.id == 0 && f.r.WantSample() && idx%97 == 0 {
+		f.r.Sample(wit())
+	}
+	viol := func(key, what string) { reportViolation(f.r, key, what, wit()) }
+	out := res.Out
+	// (1) never in response to an SCMP error
+	if offKnown && offErr {
+		viol("C09:error-for-scmp-error", fmt.Sprintf("an SCMP error (%s) was generated in response to a packet that itself carries an SCMP error message (type %d)", outcome, raw[walkChain(raw).l4Off]))
+		return true
+	}
+	if offKnown && offSCMP {
+		f.a.event("scmp_info_offender_answered")
+	}
+	// (2) size bound
+	if len(out) > 1232 {
+		viol("C09:too-long", fmt.Sprintf("SCMP error message is %d bytes long, more than 1232", len(out)))
+	}
+	// (3) structure
+	jv := judgeSCION(out, &f.sl)
+	if !jv.ok {
+		viol("C09:malformed:"+jv.cat, "emitted SCMP packet is not a consistent SCION packet: "+jv.detail)
+		return true
+	}
+	m := rfix.ParseSCMP(out)
+	if !m.OK {
+		viol("C09:unparsable-scmp", "emitted packet does not carry a well-formed SCMP error message")
+		return true
+	}
+	oh := m.Hdr
+	// (4) addressed to the offender's source, from this router
+	if oh.DstIA != binary.BigEndian.Uint64(raw[20:28]) || oh.DT != h.ST || oh.DL != h.SL || !bytes.Equal(oh.DstHost, raw[28+len(h.DstHost):28+len(h.DstHost)+len(h.SrcHost)]) {
+		viol("C09:not-addressed-to-source", fmt.Sprintf("destination of the SCMP message (%x, type %d/%d, %x) is not the offending packet's source (%x, type %d/%d, %x)",
+			oh.DstIA, oh.DT, oh.DL, oh.DstHost, h.SrcIA, h.ST, h.SL, h.SrcHost))
+	}
+	local := rfix.SiblingAddr(0).Addr().As4()
+	if oh.SrcIA != uint64(s.Cfg.IA) || oh.ST != 0 || oh.SL != 0 || !bytes.Equal(oh.SrcHost, local[:]) {
+		viol("C09:not-from-router", fmt.Sprintf("source of the SCMP message (%x, type %d/%d, %x) is not the local ISD-AS %x and router address %x", oh.SrcIA, oh.ST, oh.SL, oh.SrcHost, uint64(s.Cfg.IA), local))
+	}
+	// (5) checksum
+	if !m.CsumOK {
+		viol("C09:checksum", "checksum over pseudo header and SCMP message does not fold to 0xffff")
+	}
+	// (6) type, code, pointer
+	if cause >= 0 {
+		if m.Type != ex.typ || m.Code != ex.code {
+			viol("C09:wrong-typecode:"+cname, fmt.Sprintf("SCMP %d/%d for injected cause %s, expected %d/%d", m.Type, m.Code, cname, ex.typ, ex.code))
+		} else if ex.typ == 4 {
+			switch {
+			case ex.ptr < 0:
+				f.a.class(fmt.Sprintf("pointer-not-judged:%s=%d", cname, m.Pointer))
+			case int(m.Pointer) != ex.ptr && opts.Epic:
+				viol("C09:wrong-pointer:epic", fmt.Sprintf("pointer %d does not designate the offending field at offset %d of the EPIC packet", m.Pointer, ex.ptr))
+			case int(m.Pointer) != ex.ptr:
+				viol("C09:wrong-pointer:"+cname, fmt.Sprintf("pointer %d does not designate the offending field at offset %d", m.Pointer, ex.ptr))
+			default:
+				f.a.event("pointer_ok")
+			}
+		}
+		if ex.ifInfo && m.Type == ex.typ {
+			bad := m.IA != uint64(s.Cfg.IA) || (ex.typ == 5 && m.IfA != ex.egress) ||
+				(ex.typ == 6 && (m.IfA != ex.ingress || m.IfB != ex.egress))
+			if bad {
+				viol("C09:wrong-interface-info", fmt.Sprintf("interface-down message reports IA %x if %d/%d, expected local IA %x ingress %d egress %d", m.IA, m.IfA, m.IfB, uint64(s.Cfg.IA), ex.ingress, ex.egress))
+			}
+		}
+	} else {
+		viol("C09:error-for-valid-packet", "an SCMP error was generated for a packet without injected defect (fixture or router defect)")
+	}
+	// (7) quote is a prefix of the offending packet (path state the router
+	// legitimately updates before it detects the problem is masked: CurrINF/CurrHF,
+	// SegIDs, router-alert flags)
+	q := m.Quote
+	if len(q) > len(raw) {
+		viol("C09:quote-not-prefix", fmt.Sprintf("quote (%d bytes) is longer than the offending packet (%d)", len(q), len(raw)))
+	} else {
+		exact := bytes.Equal(q, raw[:len(q)])
+		if !exact {
+			a, b := append([]byte(nil), q...), append([]byte(nil), raw[:len(q)]...)
+			maskMutable(a, h)
+			maskMutable(b, h)
+			if !bytes.Equal(a, b) {
+				d := 0
+				for d < len(a) && a[d] == b[d] {
+					d++
+				}
+				viol("C09:quote-not-prefix", fmt.Sprintf("quoted bytes differ from the offending packet at offset %d (outside mutable path state)", d))
+			} else {
+				f.a.event("quote_prefix_modulo_path_state")
+			}
+		} else {
+			f.a.event("quote_exact_prefix")
+		}
+		if len(q) == len(raw) || len(out) == 1232 {
+			f.a.event("quote_maximal")
+		} else {
+			f.a.event("quote_not_maximal(not judged)")
+		}
+	}
+	// (8) authentication
+	if v.Auth {
+		f.checkAuth(out, &m, t0, t1, viol)
+	}
+	return true
+}
+
+// maskMutable zeroes, in a prefix b of a packet with header layout h, the path
+// state a router updates while processing.
+func maskMutable(b []byte, h *rfix.Hdr) {
+	if h.PathType != 1 && h.PathType != 3 {
+		return
+	}
+	if len(h.InfoOff) == 0 {
+		return
+	}
+	if o := h.InfoOff[0] - 4; o < len(b) {
+		b[o] = 0
+	}
+	for _, o := range h.InfoOff {
+		if o+4 <= len(b) {
+			b[o+2], b[o+3] = 0, 0
+		}
+	}
+	for _, o := range h.HopOff {
+		if o < len(b) {
+			b[o] &^= 3
+		}
+	}
+}
+
+// checkAuth verifies the authenticator of an authenticated SCMP error: SPAO
+// option present in the end-to-end extension, DRKey SPI for SCMP / AS-host /
+// sender side, AES-CMAC, timestamp inside the bracket of the call relative to
+// the FakeProvider epoch, and the MAC recomputed under the FakeProvider
+// AS-host key for (destination IA, destination host).
+func (f *fz) checkAuth(out []byte, m *rfix.SCMPInfo, t0, t1 time.Time, viol func(key, what string)) {
+	if !m.HasE2E {
+		viol("C09:auth-missing", "SCMP authentication is enabled but the error message has no end-to-end extension")
+		return
+	}
+	var e2e slayers.EndToEndExtn
+	if err := e2e.DecodeFromBytes(m.E2E, gopacket.NilDecodeFeedback); err != nil {
+		viol("C09:auth-missing", "end-to-end extension does not decode: "+err.Error())
+		return
+	}
+	eo, err := e2e.FindOption(slayers.OptTypeAuthenticator)
+	if err != nil {
+		viol("C09:auth-missing", "end-to-end extension carries no authenticator option")
+		return
+	}
+	ao, err := slayers.ParsePacketAuthOption(eo)
+	if err != nil || len(ao.Authenticator()) != 16 {
+		viol("C09:auth-malformed", "authenticator option is malformed")
+		return
+	}
+	if uint32(ao.SPI()) != uint32(drkey.SCMP) || ao.Algorithm() != slayers.PacketAuthCMAC {
+		viol("C09:auth-malformed", fmt.Sprintf("SPI %#x / algorithm %d, expected DRKey SCMP AS-host sender-side (%#x) with AES-CMAC", uint32(ao.SPI()), ao.Algorithm(), uint32(drkey.SCMP)))
+		return
+	}
+	dst, err := f.sl.DstAddr()
+	if err != nil {
+		viol("C09:auth-malformed", "destination host of an authenticated message does not parse")
+		return
+	}
+	k0, _ := fakeDRKey.GetASHostKey(t0, f.sl.DstIA, dst)
+	k1, _ := fakeDRKey.GetASHostKey(t1, f.sl.DstIA, dst)
+	if k0.Epoch != k1.Epoch {
+		f.r.Inconclusive("time-bracket(drkey-epoch)")
+		return
+	}
+	abs := spao.AbsoluteTimestamp(k0.Epoch, ao.TimestampSN())
+	if abs.Before(t0.Add(-time.Microsecond)) || abs.After(t1.Add(time.Microsecond)) {
+		viol("C09:auth-timestamp", fmt.Sprintf("authenticator timestamp %v is outside the processing interval [%v, %v]", abs, t0, t1))
+	}
+	want, err := spao.ComputeAuthCMAC(spao.MACInput{Key: k0.Key[:], Header: ao, ScionLayer: &f.sl,
+		PldType: slayers.L4SCMP, Pld: m.Upper}, make([]byte, spao.MACBufferSize), make([]byte, 16))
+	if err != nil {
+		viol("C09:auth-malformed", "MAC input cannot be serialized: "+err.Error())
+		return
+	}
+	if !bytes.Equal(want, ao.Authenticator()) {
+		viol("C09:auth-mac", fmt.Sprintf("authenticator %x differs from the recomputation %x under the FakeProvider AS-host key", ao.Authenticator(), want))
+		return
+	}
+	f.a.event("auth_mac_ok")
+}
+
+var c09Variants = []starVariant{
+	{Idx: 0, Reuse: true, Auth: false},
+	{Idx: 1, Reuse: true, Auth: true},
+	{Idx: 2, Reuse: false, Auth: false},
+	{Idx: 3, Reuse: false, Auth: true},
+	{Idx: 4, Reuse: true, Auth: false, BFD: true},
+	{Idx: 5, Reuse: false, Auth: true, BFD: true},
+}
+
+func checkC09(r *mon.Run) {
+	r.Rule = "one defect per otherwise valid packet: invalid hop MAC, expired hop, unknown ingress / egress interface, invalid source / destination ISD-AS, forbidden interface pair inside a segment, " +
+		"forbidden segment change, wrong payload length, unusable destination host, unusable source host, SVC without back-end, egress link down (BFD session never up) -- for every role of the AS and ingress kind, " +
+		"paths of up to 64 hops (reply header in the 512-byte headroom and packed at the end of the buffer), offender sizes up to the 8488-byte buffer, no/HBH/E2E/both extensions, every L4 kind incl. all SCMP types, " +
+		"source host forms IPv4/IPv6/SVC/unknown, SCION and EPIC path types, SCMP authentication on/off. Oracle on the emitted bytes: addressing, checksum, type/code/pointer per scmp.rst, quote prefix, <= 1232 bytes, " +
+		"silence towards SCMP errors, authenticator recomputation. class = cause/ingress/auth/offender-L4/ext/placement/source-form/outcome"
+	r.Assumptions = []string{
+		"the MAC input of the authenticator is serialized by spao.ComputeAuthCMAC (trusted here, judged by C21); the key is derived independently by calling drkeyutil.FakeProvider for (destination IA, destination host) at the option's timestamp",
+		"the pointer of causes for which scmp.rst fixes no location (payload size, unusable host address) is recorded, not judged",
+		"quoted bytes are compared modulo the path state a router updates before detecting the problem (CurrINF/CurrHF, SegID, router-alert flags)",
+		"expired-hop and authenticator-timestamp cases use the time-bracket rule; a router panic is counted as inconclusive here (it is C08's subject)",
+	}
+	workers := r.Pick(8, 16)
+	cases := r.Pick(9000, 400_000) // per worker
+	li := openLastInput(r, workers)
+	defer li.close()
+	fzs := make([]*fz, workers)
+	for w := range fzs {
+		f := &fz{r: r, id: w, rng: r.Rand(fmt.Sprintf("c09-w%d", w)), a: newAgg(r), li: li, variants: c09Variants}
+		for _, v := range c09Variants {
+			f.stars = append(f.stars, newFuzzStar(r, v))
+		}
+		fzs[w] = f
+	}
+	var wg sync.WaitGroup
+	for _, f := range fzs {
+		wg.Add(1)
+		go func(f *fz) {
+			defer wg.Done()
+			for i := 0; i < cases; i++ {
+				for try := 0; try < 50 && !f.c09One(i); try++ {
+				}
+				if i%4096 == 0 {
+					f.a.flush()
+				}
+				if f.r.Violations() > 200 {
+					break
+				}
+			}
+			f.a.flush()
+		}(f)
+	}
+	wg.Wait()
+	need := []string{"placement_headroom", "placement_packed-at-end", "quote_exact_prefix", "pointer_ok", "auth_mac_ok",
+		"scmp_error_offender_not_answered", "scmp_info_offender_answered", "quote_maximal"}
+	for c := 0; c < int(numCauses); c++ {
+		need = append(need, "emitted:"+causeNames[c])
+	}
+	r.Require(int64(workers*cases*9/10), 400, need...)
+	r.RequireClasses("placement:headroom/auth", "placement:headroom/noauth", "placement:packed-at-end/auth", "placement:packed-at-end/noauth")
+}
